@@ -38,6 +38,13 @@ def build(names):
         for p in (os.path.join(d, 'xk', '__init__.py'), os.path.join(sub, '__init__.py')):
             if not os.path.exists(p): open(p, 'w').close()
         shutil.copy(os.path.join(REPO, rel), sub)
+        # plain Python imports of the parent package refer to the real atomman (only the kernels live in the scratch package)
+        import re as _re
+        p_ = os.path.join(sub, os.path.basename(rel))
+        txt = open(p_).read()
+        txt = _re.sub(r'^from \.\. import ', 'from atomman import ', txt, flags=_re.M)
+        txt = _re.sub(r'^from \. import ', 'from atomman.' + os.path.basename(os.path.dirname(rel)) + ' import ', txt, flags=_re.M)
+        open(p_, 'w').write(txt)
         pxd = os.path.join(REPO, rel[:-4] + '.pxd')
         if os.path.exists(pxd): shutil.copy(pxd, sub)
     with open(os.path.join(d, 'setup.py'), 'w') as f:
